@@ -65,6 +65,12 @@ func (pass *DisjunctionToType) Process(schemas []*ast.Schema) ([]*ast.Schema, er
 }
 
 func (pass *DisjunctionToType) processDisjunction(visitor *Visitor, schema *ast.Schema, def ast.Type) (ast.Type, error) {
+	// disjunctions nested within the branches have to be processed too
+	def, err := visitor.VisitDisjunctionBranches(schema, def)
+	if err != nil {
+		return ast.Type{}, err
+	}
+
 	disjunction := def.AsDisjunction()
 
 	// Ex: "some concrete value" | "some other value" | string
